@@ -323,7 +323,8 @@ def run_case(ctx, case):
                         shape = ":same-signatures-different-order"
                 if q[0] == "complete":
                     import re as _re
-                    nm = lambda t: sorted(_re.findall(r"\('name', '([^']*)'\)", str(t)))
+                    # (per item: repr() of the whole tuple escapes the quotes of items that contain both kinds)
+                    nm = lambda t: sorted(n_ for item_ in t for n_ in _re.findall(r"\('name', '([^']*)'\)", str(item_)))
                     if nm(a) == nm(b):
                         shape = ":same-names-different-definition"
                     elif p and _open_call_line(t, q[1], q[2]) not in (None, q[1]):
